@@ -114,3 +114,130 @@ Example send_receive_example :
   feed 100 r_init [[77;65]; [74;73;0;0;0;3;1;2]; [3;77;65;74;73;0;0;0;2;9;8]] = ([[1;2;3];[9;8]], None, r_init)
   /\ send_stream [[1;2;3];[9;8]] = concat [[77;65]; [74;73;0;0;0;3;1;2]; [3;77;65;74;73;0;0;0;2;9;8]].
 Proof. split; vm_compute; reflexivity. Qed.
+
+(* ================= the sender's state machine (send_buffer / send_backlog / writability) ================= *)
+Lemma send_stream_snoc ps p : send_stream (ps ++ [p]) = send_stream ps ++ send_frame p.
+Proof. unfold send_stream. rewrite map_app, concat_app. cbn [map concat]. rewrite app_nil_r. reflexivity. Qed.
+
+Lemma send_frame_nonempty p : send_frame p <> [].
+Proof. unfold send_frame, MAGIC. discriminate. Qed.
+
+Record SInv (st : sstate) (sent : list bytes) : Prop := {
+  si_stream : s_written st ++ s_buf st ++ concat (s_backlog st) = send_stream sent;
+  si_nobuf : s_buf st = [] -> s_backlog st = [];
+  si_writing : s_buf st <> [] -> s_writing st = true;
+  si_backlog : Forall (fun x => x <> []) (s_backlog st) }.
+
+Lemma SInv_init : SInv s_init [].
+Proof. constructor; cbn; auto; congruence. Qed.
+
+Lemma SInv_send st sent p : SInv st sent -> SInv (s_send st p) (sent ++ [p]).
+Proof.
+  intros [H1 H2 H3 H4]. unfold s_send. destruct (s_buf st) as [|b0 bs] eqn:Eb.
+  - rewrite (H2 eq_refl) in *. cbn [app]. constructor; cbn [s_written s_buf s_backlog s_writing concat].
+    + rewrite send_stream_snoc, <- H1. cbn [concat app]. rewrite !app_nil_r. reflexivity.
+    + reflexivity.
+    + reflexivity.
+    + constructor.
+  - constructor; cbn [s_written s_buf s_backlog s_writing].
+    + rewrite send_stream_snoc, <- H1, concat_app. cbn [concat]. rewrite app_nil_r, <- !app_assoc. reflexivity.
+    + discriminate.
+    + intros _. apply H3. discriminate.
+    + apply Forall_app. split; [exact H4|]. constructor; [apply send_frame_nonempty|constructor].
+Qed.
+
+Lemma SInv_can_send st sent n : SInv st sent -> SInv (s_can_send st n) sent.
+Proof.
+  intros [H1 H2 H3 H4]. unfold s_can_send.
+  set (k := Nat.min n (length (s_buf st))).
+  assert (Hsplit : s_buf st = firstn k (s_buf st) ++ skipn k (s_buf st)) by (symmetry; apply firstn_skipn).
+  destruct (skipn k (s_buf st)) as [|c cs] eqn:Es.
+  - rewrite app_nil_r in Hsplit. destruct (s_backlog st) as [|x rest] eqn:Ebl.
+    + constructor; cbn [s_written s_buf s_backlog s_writing concat].
+      * rewrite <- H1. cbn [concat]. rewrite !app_nil_r. rewrite <- Hsplit. reflexivity.
+      * reflexivity.
+      * congruence.
+      * constructor.
+    + inversion H4 as [|x' r' Hx Hr]; subst.
+      constructor; cbn [s_written s_buf s_backlog s_writing].
+      * rewrite <- H1. cbn [concat]. rewrite <- Hsplit, <- !app_assoc. reflexivity.
+      * intros E. contradiction.
+      * intros _. apply H3. intros E. apply H2 in E. discriminate.
+      * exact Hr.
+  - constructor; cbn [s_written s_buf s_backlog s_writing].
+    + rewrite <- H1. rewrite Hsplit at 2. rewrite <- !app_assoc. reflexivity.
+    + discriminate.
+    + intros _. apply H3. intros E. rewrite E in Es. rewrite skipn_nil in Es. discriminate.
+    + exact H4.
+Qed.
+
+Lemma SInv_run_gen ops : forall st sent, SInv st sent -> SInv (fold_left s_step ops st) (sent ++ sent_of ops).
+Proof.
+  induction ops as [|o ops IH]; intros st sent H; cbn [fold_left sent_of].
+  - rewrite app_nil_r. exact H.
+  - destruct o as [p|n]; cbn [s_step].
+    + replace (sent ++ p :: sent_of ops) with ((sent ++ [p]) ++ sent_of ops) by (rewrite <- app_assoc; reflexivity).
+      apply IH, SInv_send, H.
+    + apply IH, SInv_can_send, H.
+Qed.
+
+(* every reachable sender state, for every interleaving of send_message calls and socket writes of any sizes *)
+Theorem sender_invariant ops : SInv (s_run ops) (sent_of ops).
+Proof. apply (SInv_run_gen ops s_init [] SInv_init). Qed.
+
+(* what has been written is always a prefix of the stream of everything sent; once the sender no longer asks for
+   writability, it is all of it *)
+Theorem sender_written_prefix ops :
+  exists later, s_written (s_run ops) ++ later = send_stream (sent_of ops).
+Proof. destruct (sender_invariant ops) as [H _ _ _]. eexists. exact H. Qed.
+
+Theorem sender_drained ops : s_writing (s_run ops) = false ->
+  s_written (s_run ops) = send_stream (sent_of ops) /\ s_buf (s_run ops) = [] /\ s_backlog (s_run ops) = [].
+Proof.
+  destruct (sender_invariant ops) as [H1 H2 H3 _]. intros Hw.
+  destruct (s_buf (s_run ops)) as [|b bs] eqn:Eb.
+  - rewrite (H2 eq_refl) in *. cbn [concat app] in H1. rewrite app_nil_r in H1. auto.
+  - assert (s_writing (s_run ops) = true) by (apply H3; discriminate). congruence.
+Qed.
+
+(* progress: a socket that takes at least one byte moves the written stream forward whenever anything is queued,
+   so draining terminates after at most |stream| writable events *)
+Theorem sender_progress ops n : (1 <= n)%nat -> s_buf (s_run ops) <> [] ->
+  (length (s_written (s_run ops)) < length (s_written (s_can_send (s_run ops) n)))%nat.
+Proof.
+  intros Hn Hb. unfold s_can_send. set (st := s_run ops) in *.
+  assert (Hl : (1 <= length (s_buf st))%nat) by (destruct (s_buf st); [congruence|cbn; lia]).
+  assert (Hk : (1 <= length (firstn (Nat.min n (length (s_buf st))) (s_buf st)))%nat)
+    by (rewrite firstn_length; lia).
+  destruct (skipn _ (s_buf st)); [destruct (s_backlog st)|]; cbn [s_written]; rewrite app_length; lia.
+Qed.
+
+Section SenderReceiver.
+  Variable max : N.
+  (* sender state machine and receiver composed: however send_message calls and socket writes interleave, and however
+     the transport re-cuts what was written, the other side has received a prefix of the messages sent, in order,
+     and has refused nothing; when the sender has stopped asking for writability it has received all of them *)
+  Theorem sender_receiver_prefix ops chunks : Forall (sendable max) (sent_of ops) -> Forall bytes_wf chunks ->
+    concat chunks = s_written (s_run ops) ->
+    snd (fst (feed max r_init chunks)) = None /\
+    exists more, fst (fst (feed max r_init chunks)) ++ more = sent_of ops.
+  Proof.
+    intros Hs Hc E. destruct (sender_written_prefix ops) as [later Hl]. rewrite <- E in Hl.
+    exact (send_receive_prefix max (sent_of ops) chunks later Hs Hc Hl).
+  Qed.
+
+  Theorem sender_receiver_complete ops chunks : Forall (sendable max) (sent_of ops) -> Forall bytes_wf chunks ->
+    concat chunks = s_written (s_run ops) -> s_writing (s_run ops) = false ->
+    fst (fst (feed max r_init chunks)) = sent_of ops /\
+    snd (fst (feed max r_init chunks)) = None /\
+    pending (snd (feed max r_init chunks)) = [].
+  Proof.
+    intros Hs Hc E Hw. destruct (sender_drained ops Hw) as [Hd _]. rewrite Hd in E.
+    exact (send_receive max (sent_of ops) chunks Hs Hc E).
+  Qed.
+End SenderReceiver.
+
+Example sender_example :
+  let st := s_run [OSend [1;2]; OSend [3]; OCanSend 3; OSend []; OCanSend 100; OCanSend 4; OCanSend 9; OCanSend 8] in
+  s_writing st = false /\ s_written st = send_stream [[1;2]; [3]; []].
+Proof. vm_compute. split; reflexivity. Qed.
